@@ -1432,6 +1432,10 @@ def main_c20(tier, seed):
                                           "[duplicate] file with a key / section defined twice is not refused (%s): %s" % (got[0], text[:300]), dict(case=c, file=text))
             finally:
                 shutil.rmtree(d, ignore_errors=True)
+            # every function is bound to the one definition the user can see for it: name resolution over custom and table labels
+            # (bare names of standard forms, labels that differ in case, reserved labels) in three contexts of use (spec/Names.tla)
+            from engines import names
+            names.check(run, tier, seed, engine="inidoc")
             run.rule = "cases = 23 duplication operators x {written in the file, given by --add-item / additional=, both definitions given by --add-item} (TLC) x families x spellings of the second definition x 3 positions x {API, CLI}; non-trivial = every case (each holds a genuine second definition with a different value); distinct by (operator, family, spelling, position)"
     except tlc.TLCError as e:
         run.machinery(str(e))
